@@ -32,6 +32,33 @@ type pfbReader struct {
 	state int
 	len   int64
 	tail  byte
+	err   error // read error which arrived together with data
+}
+
+// readFull is like io.ReadFull, but an error which the underlying reader
+// returns together with the last requested bytes is kept for the next call
+// instead of being dropped.
+func (r *pfbReader) readFull(buf []byte) (int, error) {
+	if r.err != nil {
+		return 0, r.err
+	}
+	n := 0
+	var err error
+	for n < len(buf) && err == nil {
+		var k int
+		k, err = r.r.Read(buf[n:])
+		n += k
+	}
+	if n == len(buf) {
+		if err != io.EOF {
+			r.err = err
+		}
+		return n, nil
+	}
+	if n > 0 && err == io.EOF {
+		err = io.ErrUnexpectedEOF
+	}
+	return n, err
 }
 
 func (r *pfbReader) Read(b []byte) (n int, err error) {
@@ -39,7 +66,7 @@ func (r *pfbReader) Read(b []byte) (n int, err error) {
 		switch r.state {
 		case 0: // start of new section
 			var buf [6]byte
-			k, err := io.ReadFull(r.r, buf[:])
+			k, err := r.readFull(buf[:])
 			if k >= 2 && buf[0] == 0x80 && buf[1] == 0x03 && err == io.ErrUnexpectedEOF {
 				// pass
 			} else if err != nil {
@@ -64,6 +91,9 @@ func (r *pfbReader) Read(b []byte) (n int, err error) {
 			if int64(k) > r.len {
 				k = int(r.len)
 			}
+			if r.err != nil {
+				return n, r.err
+			}
 			k, err = r.r.Read(b[:k])
 			r.len -= int64(k)
 			n += k
@@ -79,7 +109,7 @@ func (r *pfbReader) Read(b []byte) (n int, err error) {
 			if int64(k) > r.len {
 				k = int(r.len)
 			}
-			k, err = io.ReadFull(r.r, b[:k])
+			k, err = r.readFull(b[:k])
 			r.len -= int64(k)
 			if err == io.EOF {
 				// the segment is shorter than its header says
